@@ -12,6 +12,7 @@ import A2lVerif.Driver.A2ml
 import A2lVerif.Driver.Typed
 import A2lVerif.Driver.Checker
 import A2lVerif.Driver.IncludeWriter
+import A2lVerif.Driver.IfCleanup
 /-! `a2lmodel`: one request per line on stdin, one canonical answer per line on stdout. -/
 open A2l
 
@@ -24,6 +25,7 @@ def dispatch (line : String) : String :=
   | "cln" :: args => Cl.handle args
   | "inc" :: args => Inc.handle args
   | "incw" :: args => IncW.handle args
+  | "ifcl" :: args => IfCl.handle args
   | "mrg" :: args => Mg.handle args
   | "mrgraw" :: args => Mg.handleRaw args
   | "lim" :: args => Lim.handle args
